@@ -6,9 +6,6 @@ Import ListNotations.
 Open Scope string_scope.
 
 (* ---- hypotheses of the partial theorems, in the terms of the rule list ---- *)
-Definition neg_head (r : rule) : bool :=
-  match r_funcs r with [f] => f_not f | _ => false end.
-
 Fixpoint adjacent_all (P : rule -> rule -> Prop) (rs : list rule) : Prop :=
   match rs with
   | a :: t => match t with b :: _ => P a b | [] => True end /\ adjacent_all P t
@@ -31,10 +28,9 @@ Section Proofs.
   Notation decide_ast := (decide_ast packet D atom_sem out_sem).
   Notation decide := (decide packet D atom_sem out_sem).
 
-  (* neighbours that the merge step would fuse are positive and their outbounds mean the same *)
+  (* the outbounds of neighbours that the merge step fuses (it compares their printed form) mean the same *)
   Definition merge_hazard_free (rules : list rule) : Prop :=
-    adjacent_all (fun a b => mergeable a b = true ->
-                             neg_head a = false /\ out_sem (r_out b) = out_sem (r_out a)) rules.
+    adjacent_all (fun a b => mergeable a b = true -> out_sem (r_out b) = out_sem (r_out a)) rules.
 
   (* values of one condition that print alike mean the same *)
   Definition dedup_faithful (rules : list rule) : Prop :=
@@ -284,30 +280,30 @@ Section Proofs.
 
   (* ---------- merge ---------- *)
   Lemma mergeable_shape : forall m r, mergeable m r = true ->
-      exists fm fr, r_funcs m = [fm] /\ r_funcs r = [fr] /\ f_name fm = f_name fr /\ f_not fm = f_not fr
+      exists fm fr, r_funcs m = [fm] /\ r_funcs r = [fr] /\ f_name fm = f_name fr /\ f_not fm = false /\ f_not fr = false
                     /\ out_print (r_out r) = out_print (r_out m).
   Proof.
     intros m r H. unfold mergeable in H.
     destruct (r_funcs m) as [|fm [|? ?]]; try discriminate.
     destruct (r_funcs r) as [|fr [|? ?]]; try discriminate.
-    apply andb_prop in H as [H H3]. apply andb_prop in H as [H1 H2].
+    apply andb_prop in H as [H H3]. apply andb_prop in H as [H1 H2]. apply andb_prop in H2 as [H2 H2'].
     exists fm, fr. repeat split; auto.
     - now apply String.eqb_eq.
-    - now apply Bool.eqb_prop.
+    - now destruct (f_not fm).
+    - now destruct (f_not fr).
     - now apply String.eqb_eq.
   Qed.
 
   Lemma merge_step : forall m r rest pk mu, mergeable m r = true ->
-      neg_head m = false -> out_sem (r_out r) = out_sem (r_out m) ->
+      out_sem (r_out r) = out_sem (r_out m) ->
       decide_ast (merge_into m r :: rest) pk mu = decide_ast (m :: r :: rest) pk mu.
   Proof.
-    intros m r rest pk mu HM HN HO.
-    destruct (mergeable_shape _ _ HM) as (fm & fr & Em & Er & En & Ent & _).
-    unfold neg_head in HN. rewrite Em in HN.
+    intros m r rest pk mu HM HO.
+    destruct (mergeable_shape _ _ HM) as (fm & fr & Em & Er & En & Nm & Nr & _).
     assert (Hmm : rule_matches pk (merge_into m r) = rule_matches pk m || rule_matches pk r).
     { unfold C04_Spec.rule_matches, merge_into. rewrite Em, Er. cbn.
       unfold C04_Spec.func_holds; cbn [f_name f_not f_params].
-      rewrite <- Ent, HN, <- En, existsb_app'. cbn.
+      rewrite Nm, Nr, <- En, existsb_app'. cbn.
       destruct (existsb _ (f_params fm)), (existsb _ (f_params fr)); reflexivity. }
     assert (Ho : r_out (merge_into m r) = r_out m).
     { unfold merge_into. rewrite Em, Er. reflexivity. }
@@ -319,25 +315,25 @@ Section Proofs.
   Fixpoint adj_ok (m : rule) (rs : list rule) : Prop :=
     match rs with
     | [] => True
-    | r :: t => (mergeable m r = true -> neg_head m = false /\ out_sem (r_out r) = out_sem (r_out m)) /\ adj_ok r t
+    | r :: t => (mergeable m r = true -> out_sem (r_out r) = out_sem (r_out m)) /\ adj_ok r t
     end.
 
   Lemma mergeable_merge_into : forall m r x, mergeable m r = true ->
       mergeable (merge_into m r) x = mergeable r x.
   Proof.
-    intros m r x HM. destruct (mergeable_shape _ _ HM) as (fm & fr & Em & Er & En & Ent & Ep).
-    unfold mergeable, merge_into. rewrite Em, Er. cbn. now rewrite En, Ent, Ep.
+    intros m r x HM. destruct (mergeable_shape _ _ HM) as (fm & fr & Em & Er & En & Nm & Nr & Ep).
+    unfold mergeable, merge_into. rewrite Em, Er. cbn. now rewrite En, Nm, Nr, Ep.
   Qed.
 
   Lemma adj_ok_merge_into : forall m r t, mergeable m r = true ->
-      (neg_head m = false /\ out_sem (r_out r) = out_sem (r_out m)) ->
+      out_sem (r_out r) = out_sem (r_out m) ->
       adj_ok r t -> adj_ok (merge_into m r) t.
   Proof.
-    intros m r t HM [HN HO] H. destruct t as [|x t']; cbn in *; [exact I|].
+    intros m r t HM HO H. destruct t as [|x t']; cbn in *; [exact I|].
     destruct H as [H1 H2]. split; [|exact H2].
-    rewrite (mergeable_merge_into _ _ _ HM). intros Hx. destruct (H1 Hx) as [Hn Ho].
-    destruct (mergeable_shape _ _ HM) as (fm & fr & Em & Er & En & Ent & Ep).
-    unfold neg_head, merge_into in *. rewrite Em, Er in *. cbn. split; [exact HN|]. now rewrite Ho.
+    rewrite (mergeable_merge_into _ _ _ HM). intros Hx. pose proof (H1 Hx) as Ho.
+    destruct (mergeable_shape _ _ HM) as (fm & fr & Em & Er & _).
+    unfold merge_into. rewrite Em, Er. cbn. now rewrite Ho.
   Qed.
 
   Lemma merge_loop_sound : forall rs m pk mu, adj_ok m rs ->
@@ -346,14 +342,14 @@ Section Proofs.
     induction rs as [|r t IH]; intros m pk mu H; [reflexivity|].
     cbn [merge_loop]. destruct H as [H1 H2].
     destruct (mergeable m r) eqn:HM.
-    - destruct (H1 eq_refl) as [HN HO].
+    - pose proof (H1 eq_refl) as HO.
       rewrite IH by (apply adj_ok_merge_into; auto).
       now apply merge_step.
     - cbn [C04_Spec.decide_ast]. rewrite (IH r pk true H2), (IH r pk mu H2). reflexivity.
   Qed.
 
   Lemma adjacent_all_adj_ok : forall m rs,
-      adjacent_all (fun a b => mergeable a b = true -> neg_head a = false /\ out_sem (r_out b) = out_sem (r_out a)) (m :: rs) ->
+      adjacent_all (fun a b => mergeable a b = true -> out_sem (r_out b) = out_sem (r_out a)) (m :: rs) ->
       adj_ok m rs.
   Proof.
     intros m rs; revert m. induction rs as [|r t IH]; intros m H; cbn in *; [exact I|].
@@ -392,22 +388,13 @@ Section Proofs.
     - destruct (r_funcs (sort_funcs a)) as [|x [|y l]]; cbn in Ha; try congruence; reflexivity.
   Qed.
 
-  Lemma neg_head_sort_funcs : forall a, neg_head (sort_funcs a) = neg_head a.
-  Proof.
-    intros a. unfold neg_head. pose proof (sort_funcs_single a) as Ha.
-    destruct (r_funcs a) as [|fa [|ga ta]].
-    - destruct (r_funcs (sort_funcs a)) as [|x [|y l]]; cbn in Ha; try congruence; reflexivity.
-    - now rewrite Ha.
-    - destruct (r_funcs (sort_funcs a)) as [|x [|y l]]; cbn in Ha; try congruence; reflexivity.
-  Qed.
-
   Lemma hazard_free_sort_funcs : forall rules, merge_hazard_free rules ->
       merge_hazard_free (map sort_funcs rules).
   Proof.
     unfold merge_hazard_free. induction rules as [|a t IH]; intros H; [exact I|].
     cbn in *. destruct H as [H1 H2]. split; [|apply IH, H2].
     destruct t as [|b t']; cbn; [exact I|].
-    rewrite mergeable_sort_funcs, neg_head_sort_funcs. exact H1.
+    rewrite mergeable_sort_funcs. exact H1.
   Qed.
 
   Lemma merge_sound_partial : forall rules, merge_hazard_free rules ->
@@ -476,13 +463,15 @@ Definition mk_rule (neg : bool) (fname key val out : string) : rule :=
 Definition w_atom (f k v : string) (pk : string) : bool := v =? pk.
 Definition w_out (o : func) : option string := Some (f_name o).
 
+(* regression for /repo ec2de34: negated neighbours are left alone, and the decision is kept *)
 Definition w_neg_rules : list rule :=
   [mk_rule true "domain" "full" "a.com" "proxy"; mk_rule true "domain" "full" "b.com" "proxy"].
 
-Lemma merge_refuted_witness :
-  decide string string w_atom w_out (merge_sort_opt w_neg_rules) "a.com" = (None, false) /\
+Lemma negated_neighbours_kept :
+  merge_sort_opt w_neg_rules = w_neg_rules /\
+  decide string string w_atom w_out (merge_sort_opt w_neg_rules) "a.com" = (Some "proxy", false) /\
   decide string string w_atom w_out w_neg_rules "a.com" = (Some "proxy", false).
-Proof. vm_compute. split; reflexivity. Qed.
+Proof. vm_compute. repeat split; reflexivity. Qed.
 
 (* outbounds that differ only after the fifth parameter print alike (Function.String prints "...") *)
 Definition w_mark (n : string) : func :=
@@ -684,11 +673,6 @@ Lemma C04_sort_sound_proof :
     = decide packet D atom_sem out_sem rules pk.
 Proof. intros; unfold decide; apply sort_sound. Qed.
 
-Lemma C04_merge_sound_refuted_proof :
-  exists (rules : list rule) (pk : string),
-    decide string string w_atom w_out (merge_sort_opt rules) pk <> decide string string w_atom w_out rules pk.
-Proof. exists w_neg_rules, "a.com". destruct merge_refuted_witness as [-> ->]. discriminate. Qed.
-
 Lemma C04_merge_outbound_refuted_proof :
   exists (rules : list rule) (pk : string),
     decide string string w_atom w_out_last (merge_sort_opt rules) pk <> decide string string w_atom w_out_last rules pk.
@@ -701,6 +685,18 @@ Lemma C04_merge_sound_partial_proof :
     forall pk : packet,
       decide packet D atom_sem out_sem (merge_sort_opt rules) pk = decide packet D atom_sem out_sem rules pk.
 Proof. intros; unfold decide; now apply merge_sound_partial. Qed.
+
+Lemma C04_merge_sound_proof :
+  forall (packet D : Type) (atom_sem : string -> string -> string -> packet -> bool) (out_sem : func -> option D),
+    (forall o1 o2 : func, out_print o1 = out_print o2 -> out_sem o1 = out_sem o2) ->
+    forall (rules : list rule) (pk : packet),
+      decide packet D atom_sem out_sem (merge_sort_opt rules) pk = decide packet D atom_sem out_sem rules pk.
+Proof.
+  intros packet D atom_sem out_sem HP rules pk. apply C04_merge_sound_partial_proof.
+  unfold merge_hazard_free. induction rules as [|a t IH]; [exact I|].
+  cbn. split; [|exact IH]. destruct t as [|b t']; [exact I|].
+  intros HM. apply HP. destruct (mergeable_shape a b HM) as (fm & fr & _ & _ & _ & _ & _ & Ep). exact Ep.
+Qed.
 
 Lemma C04_dedup_sound_refuted_proof :
   exists (rules : list rule) (pk : string),
@@ -753,9 +749,9 @@ Proof.
   destruct (p_key p =? "geosite"); [cbn in H; discriminate|].
   destruct (p_key p =? "geoip"); [cbn in H; discriminate|].
   destruct (p_key p =? "ext").
-  - destruct (cut_char ":" (p_val p)) as [file rest].
-    destruct ((f =? "domain") || (f =? "qname")); [destruct rest; cbn in H; discriminate|].
-    destruct (f =? "ip"); [destruct rest; cbn in H; discriminate|discriminate].
+  - destruct (cut_char ":" (p_val p)) as [file [code|]]; [|discriminate].
+    destruct ((f =? "domain") || (f =? "qname")); [cbn in H; discriminate|].
+    destruct (f =? "ip"); [cbn in H; discriminate|discriminate].
   - inversion H; subst. cbn. now rewrite orb_false_r.
 Qed.
 
@@ -763,12 +759,12 @@ Lemma C04_pipeline_sound_refuted_proof :
   exists (rules out : list rule) (pk : string),
     alias_respecting string w_atom /\ geo_respecting string w_atom (dat_expansion db0) /\
     traffic_pipeline db0 rules = XOk out /\ dns_pipeline db0 rules = XOk out /\
-    decide string string w_atom w_out out pk <> decide string string w_atom w_out rules pk.
+    decide string string w_atom w_out_last out pk <> decide string string w_atom w_out_last rules pk.
 Proof.
-  exists w_neg_rules, (merge_sort_opt w_neg_rules), "a.com".
+  exists w_out_rules, (merge_sort_opt w_out_rules), "b.com".
   split; [exact w_atom_alias|]. split; [exact w_atom_geo0|].
   split; [vm_compute; reflexivity|]. split; [vm_compute; reflexivity|].
-  destruct merge_refuted_witness as [-> ->]. discriminate.
+  destruct merge_outbound_refuted_witness as [-> ->]. discriminate.
 Qed.
 
 (* ---------- statements about the compiled program ---------- *)
